@@ -21,8 +21,8 @@ CHECK = {
                 "known header / unknown), proof order, dropped/duplicated/surplus/empty proof, one byte of one node, proof of another "
                 "trie, re-targeting to the parent, address hash, the same on the account proof, account proof of another account, code bytes; "
                 "plus a crafted class where a leaf's value is the hash of a forged continuation. Header source: harness oracle, or the real "
-                "ValidationOracle over an in-process RPC that is honest or answers with another header. Non-trivial = every case (all reach "
-                "the reference verdict); classes: honest per kind, reference-rejects per kind, extension/leaf/inline-child/branch-value in proof.",
+                "ValidationOracle over an in-process RPC that is honest or answers with another header. Non-trivial = a proof containing an extension node or an inline child, a leaf as target, a "
+                "mutated-but-still-valid offer, or a mutated offer the reference rejects at a hash-link / path / root comparison (an offer with no node at all is only counted); classes: honest per kind, reference-rejects per kind, extension/leaf/inline-child/branch-value in proof.",
         "assumptions": [
             "for bytecode 'accepted' means ValidateContent and Storage.Put both succeed (state.Network.validateContents calls them in that "
             "order and gossips only then); keccak(code) is checked by Put, not by the validator",
